@@ -391,3 +391,55 @@ Theorem C07_extended_timedelta_text_exact :
   forall us us', (timedelta_text us = timedelta_text us' <-> us = us').
 Proof. intros us us'. split; [apply timedelta_text_inj|intros ->; reflexivity]. Qed.
 Print Assumptions C07_extended_timedelta_text_exact.
+
+(* Bool keys / members / items and the == -keyed table (Hash/HashProofsBoolKeys.v, added after seeded C07-10).
+   [_hash] turns a bool into its BoolObj member BEFORE it consults the table, at every position.  [table_after H o vs]
+   = the table left by hashing the values vs one after the other (any values: aliasing, K2, included). *)
+From DD Require Import Hash.HashProofsBoolKeys.
+
+(* every hasher, every option record, every history: a bool dict key / set member, and a bool item, get the bool's own
+   hash - never the one of a 1 / 1.0 / 0 / 0.0 visited before *)
+Theorem C07_bool_own_hash_whatever_was_visited :
+  forall (H : pystr -> pystr) o vs b,
+  fst (hash_atom_memo H o (ABool b) (table_after H o vs)) = hash_atom H o (ABool b) /\
+  fst (hash_memo H o (VAtom (ABool b)) (table_after H o vs)) = hash_atom H o (ABool b).
+Proof. exact bool_own_hash_after. Qed.
+Print Assumptions C07_bool_own_hash_whatever_was_visited.
+
+(* injective hasher, every option record, every history: as a key / member a bool and an int / float never get the same
+   hash (the int / float gets the hash of some int / float: itself or, K2, its == twin) *)
+Theorem C07_bool_and_numeric_keys_differ :
+  forall (H : pystr -> pystr), (forall s t, H s = H t -> s = t) ->
+  forall o vs b a, numeric a = true ->
+  fst (hash_atom_memo H o (ABool b) (table_after H o vs)) <> fst (hash_atom_memo H o a (table_after H o vs)) /\
+  exists a', numeric a' = true /\ py_eq a' a = true /\
+             fst (hash_atom_memo H o a (table_after H o vs)) = hash_atom H o a'.
+Proof.
+  intros H H_inj o vs b a Hn. split.
+  - apply bool_num_keys_differ_after; assumption.
+  - apply num_twin_hash; [apply table_after_ok|exact Hn].
+Qed.
+Print Assumptions C07_bool_and_numeric_keys_differ.
+
+(* the separation at the level of dicts: {True: x} / {False: x} against {n: y} for an int / float n, ANY values x and y,
+   hashed on the table left by ANY history - different hashes *)
+Theorem C07_bool_keyed_vs_numeric_keyed_dict :
+  forall (H : pystr -> pystr),
+  (forall s, s <> [] -> sepfree (H s)) -> (forall s t, H s = H t -> s = t) ->
+  forall o vs b a x y, plain o = true -> numeric a = true ->
+  deephash_with H o (table_after H o vs) (VDict [(ABool b, x)]) <>
+  deephash_with H o (table_after H o vs) (VDict [(a, y)]).
+Proof. intros H H_tok H_inj o vs b a x y Hp Hn. apply bool_key_dict_separate_after; assumption. Qed.
+Print Assumptions C07_bool_keyed_vs_numeric_keyed_dict.
+
+(* the seeded pairs at the root: [1, {True: 'x'}] / [1, {1: 'x'}], [1.0, {True: None}] / [1.0, {1.0: None}],
+   {'a': 0, 'b': [{False: []}]} / {'a': 0, 'b': [{0: []}]} - three modes, hex hasher *)
+Theorem C07_bool_key_after_twin_witness : forall o, In o [set_mode; multiset_mode; ordered_mode] ->
+  deephash hexhash o (VList [VAtom (AInt 1); VDict [(ABool true, VAtom (AStr (s2p "x")))]]) <>
+  deephash hexhash o (VList [VAtom (AInt 1); VDict [(AInt 1, VAtom (AStr (s2p "x")))]]) /\
+  deephash hexhash o (VList [VAtom (AHalf 2); VDict [(ABool true, VAtom ANone)]]) <>
+  deephash hexhash o (VList [VAtom (AHalf 2); VDict [(AHalf 2, VAtom ANone)]]) /\
+  deephash hexhash o (VDict [(AStr (s2p "a"), VAtom (AInt 0)); (AStr (s2p "b"), VList [VDict [(ABool false, VList [])]])]) <>
+  deephash hexhash o (VDict [(AStr (s2p "a"), VAtom (AInt 0)); (AStr (s2p "b"), VList [VDict [(AInt 0, VList [])]])]).
+Proof. exact bool_key_witness. Qed.
+Print Assumptions C07_bool_key_after_twin_witness.
